@@ -7,6 +7,7 @@
    the continuous runs): the writer invariant WInv (RoundTripWriter.v) gives exactly these facts.
    Whole archives: layer-less header, and the encryption layer written by the encryption WRITER
    model fed the block stream in any pieces (EncWriterProofs.enc_writer_canonical).  No axioms. *)
+From MLA Require Import Limit.
 From MLA Require Import Base Stream Blocks Writer RoundTripBlocks RoundTripFooter RoundTripWriter
   RoundTripRun RoundTripGlue EncLayer EncWriter EncWriterProofs Format FormatProofs FormatScan FormatContent.
 From Coq Require Import ZifyBool ZifyNat ZifyN Permutation.
@@ -41,6 +42,7 @@ Proof.
 Qed.
 
 Section Bridge.
+  Context {LIM : Limit}.
   Variable FNMAX : N.
   Variable H : bytes -> bytes.
   Variable order : footer -> footer.
@@ -129,6 +131,7 @@ End Bridge.
 
 (* ---------- the encryption layer as the encryption WRITER model leaves it ---------- *)
 Section EncFormat.
+  Context {LIM : Limit}.
   Variable CHUNK : N.
   Hypothesis HCH : 0 < CHUNK.
   (* the cipher of EncLayer.v: keystream byte and tag of chunk i *)
@@ -181,6 +184,7 @@ Section EncFormat.
 End EncFormat.
 
 Section EncBridge.
+  Context {LIM : Limit}.
   Variables CHUNK BLOCK CIPHERBUF FNMAX : N.
   Variable H : bytes -> bytes.
   Variable order : footer -> footer.
